@@ -68,19 +68,25 @@ package file
 //@     && (forall id string :: {dagV[g][id]} dagV[g][id] ==> dom(s.Tasks, id) && dagItem[g][id] == s.Tasks[id])
 //@     && (forall id string, k int :: {dagV[g][id], s.Tasks[id].TaskDependencies[k]} dagV[g][id] && 0 <= k && k < len(s.Tasks[id].TaskDependencies) ==> dagV[g][s.Tasks[id].TaskDependencies[k]] && dagE[g][s.Tasks[id].TaskDependencies[k]][id])
 
+// no spurious error: when every requested name is a defined task and every dependency named by a
+// defined task is defined, the graph is built (an error means an undefined task, nothing else)
+//@ pred AllDefined(s *SpokFile, req []string) := (forall k int :: {req[k]} 0 <= k && k < len(req) ==> dom(s.Tasks, req[k])) && (forall t string, k int :: {s.Tasks[t].TaskDependencies[k]} dom(s.Tasks, t) && 0 <= k && k < len(s.Tasks[t].TaskDependencies) ==> dom(s.Tasks, s.Tasks[t].TaskDependencies[k]))
 //@ func (*SpokFile).buildGraph
 //@ props C03
 //@ modifies dagV, dagE, dagItem, dagN, qpos
 //@ ensures [C03,closure] result1 == nil ==> result0 != nil && GraphOK(s, result0, requested)
+//@ ensures [C03,only-undefined-tasks-are-an-error] AllDefined(s, requested) ==> result1 == nil
 //@ at return AddVertex#0: ghost qpos = store(qpos, name, i)
 //@ at call append#1: ghost qpos = store(qpos, dep, len(queue))
 //@ loop 0: invariant 0 <= i && i <= len(queue) && len(requested) <= len(queue) && graph != nil
+//@ loop 0: invariant [C03] AllDefined(s, requested) ==> forall q int :: {queue[q]} 0 <= q && q < len(queue) ==> dom(s.Tasks, queue[q])
 //@ loop 0: invariant forall k int :: {queue[k]} {requested[k]} 0 <= k && k < len(requested) ==> queue[k] == requested[k]
 //@ loop 0: invariant forall q int :: {queue[q]} 0 <= q && q < i ==> dagV[graph][queue[q]]
 //@ loop 0: invariant forall id string :: {dagV[graph][id]} dagV[graph][id] ==> 0 <= qpos[id] && qpos[id] < len(queue) && queue[qpos[id]] == id && dom(s.Tasks, id) && dagItem[graph][id] == s.Tasks[id]
 //@ loop 0: invariant forall id string, k int :: {dagV[graph][id], s.Tasks[id].TaskDependencies[k]} dagV[graph][id] && qpos[id] < i && 0 <= k && k < len(s.Tasks[id].TaskDependencies) ==> dagV[graph][s.Tasks[id].TaskDependencies[k]] && dagE[graph][s.Tasks[id].TaskDependencies[k]][id]
 //@ loop 1: invariant 0 <= $i && $i <= len(requestedTask.TaskDependencies) && 0 <= i && i < len(queue) && len(requested) <= len(queue) && queue[i] == name
 //@ loop 1: invariant dagV[graph][name] && dom(s.Tasks, name) && requestedTask == s.Tasks[name]
+//@ loop 1: invariant [C03] AllDefined(s, requested) ==> forall q int :: {queue[q]} 0 <= q && q < len(queue) ==> dom(s.Tasks, queue[q])
 //@ loop 1: invariant forall k int :: {queue[k]} {requested[k]} 0 <= k && k < len(requested) ==> queue[k] == requested[k]
 //@ loop 1: invariant forall q int :: {queue[q]} 0 <= q && q < i ==> dagV[graph][queue[q]]
 //@ loop 1: invariant forall id string :: {dagV[graph][id]} dagV[graph][id] ==> 0 <= qpos[id] && qpos[id] < len(queue) && queue[qpos[id]] == id && dom(s.Tasks, id) && dagItem[graph][id] == s.Tasks[id]
